@@ -20,9 +20,29 @@ let parse_op s =
 let rec repeat_false n = if n <= 0 then [] else false :: repeat_false (n - 1)
 let sched_of m = if m < 0 then [] else repeat_false m @ [true]
 let verbose = (try ignore (Sys.getenv "C11_VERBOSE"); true with Not_found -> false)
+(* translator validation: the GENERATED leaf functions on the same inputs as the real ones (harness `leaf` lines) *)
+let out_z = function GenPrelude.Ok v -> string_of_z v | GenPrelude.Stuck -> "Stuck" | GenPrelude.Fuel -> "Fuel" | GenPrelude.Exn -> "Exn"
+let leaf ws = match ws with
+  | ["cap"; k; mc; l] ->
+    let bc = BinInt.Z.pow (z_of_int 2) (z_of_string l) and m = z_of_string mc in
+    (match k with
+     | "B" -> out_z (Gen_PolicyBase.coq_CalcCapacity bc m) ^ " " ^ out_z (Gen_PolicyBase.coq_GetBucketCountShift bc m)
+     | "O2" -> string_of_z (Gen_PolicyOpen2N2.coq_CalcCapacity m bc) ^ " " ^ string_of_z Gen_PolicyOpen2N2.coq_GetBucketCountShift
+     | _ -> string_of_z (Gen_PolicyOpen8.coq_CalcCapacity bc m) ^ " " ^ string_of_z Gen_PolicyOpen8.coq_GetBucketCountShift)
+  | ["idx"; k; hc; l; i; p] ->
+    let bc = BinInt.Z.pow (z_of_int 2) (z_of_string l) in
+    let st = Gen_IndexBase.coq_GetStartBucketIndex (z_of_string hc) bc in
+    let nx = (match k with
+      | "B" -> Gen_IndexBase.coq_GetNextBucketIndex (z_of_string i) bc
+      | "O2" -> Gen_IndexOpen2N2.coq_GetNextBucketIndex (z_of_string i) bc (z_of_string p)
+      | _ -> Gen_IndexOpen8.coq_GetNextBucketIndex (z_of_string i) bc (z_of_string p)) in
+    string_of_z st ^ " " ^ string_of_z nx
+  | ["cnt"; l] -> string_of_z (Gen_Buckets.coq_GetCount (z_of_string l))
+  | _ -> "?leaf"
 let () = iter_lines (fun line ->
   try
     match words line with
+    | "leaf" :: ws -> print_endline (leaf ws)
     | kind :: keycat :: dist :: ls :: sm :: "|" :: rest ->
       let (ops, ann) = split_bar [] rest in
       (match ann with
